@@ -125,7 +125,19 @@ def gen_int(draw, g, d):
     if k == "len":
         return ["len", gen_list(draw, g, d - 1)]
     if k == "andor":
-        return [draw(st.sampled_from(["and", "or", "coalesce"])), gen_int(draw, g, d - 1), gen_int(draw, g, d - 1)]
+        op = draw(st.sampled_from(["and", "or", "coalesce", "coalesce"]))
+        if op == "coalesce" and draw(st.booleans()):
+            # a left side that is null: a sequence closed by a semicolon (also of ONE statement) or an `if` without else
+            if draw(st.booleans()):
+                g.noscope += 1
+                snap = g.cond_begin()
+                left = ["seq", [gen_int(draw, g, d - 1) for _ in range(draw(st.integers(1, 2)))], True]
+                g.cond_end(snap)
+                g.noscope -= 1
+            else:
+                left = ["if", gen_int(draw, g, d - 1), gen_int(draw, g, d - 1), None]
+            return ["coalesce", left, gen_int(draw, g, d - 1)]
+        return [op, gen_int(draw, g, d - 1), gen_int(draw, g, d - 1)]
     if k == "call":
         fns = g.visible(lambda s: is_fn(s) and s[0] == "fn" and s[2] == "int")
         if not fns:
@@ -455,12 +467,18 @@ def gen_stmt(draw, g, d):
             return None
         g.declare(w, "int")
         g.push()
+        cond = ["bin", "<", ["int", 0], ["var", w]]
+        if draw(st.integers(0, 2)) == 0:
+            # the condition itself declares a name: condition and body share one fresh scope per iteration
+            j = draw(st.sampled_from([n for n in NAMES if n != w]))
+            cond = ["seq", [["decl", j, ["bin", "+", ["bin", "*", ["var", w], ["int", 2]], gen_int(draw, g, 0)]], cond], False]
+            g.declare(j, "int")
         g.loops += 1
         body = [x for x in [gen_stmt(draw, g, d - 1) for _ in range(draw(st.integers(1, 3)))] if x is not None]
         g.loops -= 1
         g.pop()
         return ["seq", [["decl", w, ["int", draw(st.integers(1, 4))]],
-                        ["while", ["bin", "<", ["int", 0], ["var", w]], ["seq", [["assign", w, ["bin", "-", ["var", w], ["int", 1]]]] + body, draw(st.booleans())]]], True]
+                        ["while", cond, ["seq", [["assign", w, ["bin", "-", ["var", w], ["int", 1]]]] + body, draw(st.booleans())]]], True]
     if k == "for":
         if g.loops > 0 and draw(st.booleans()):
             # a comprehension evaluated for its value inside an enclosing loop (counted breaks cross it)
